@@ -217,6 +217,8 @@ class MatrixGate(raw_types.Gate):
     def _approx_eq_(self, other: Any, atol) -> bool:
         if not isinstance(other, type(self)):
             return NotImplemented
+        if self._qid_shape != other._qid_shape:
+            return False
         return np.allclose(self._matrix, other._matrix, rtol=0, atol=atol)
 
     def __eq__(self, other):
